@@ -10,6 +10,9 @@ import (
 type eng struct{ t *testing.T }
 
 func (e eng) Generate(seed uint64, prop, tier string) any {
+	if prop == "C08" || (prop == "C17" || prop == "C06" || prop == "C05") && seed%7 == 0 {
+		return GenerateUDP(seed, tier)
+	}
 	if prop == "C18" {
 		if seed%4 == 3 {
 			return GenerateC18Random(seed, tier)
